@@ -14,7 +14,8 @@ From V Require Import Base.Util Base.Strings Base.Result Model.Registry Model.Se
   Model.TypePath Model.Derives Model.Generate Model.Emit Model.Equal Model.WellFormed Model.Shape
   Model.Program Model.ProgramSkel Model.ProgramEmit
   Checkers.Parse Checkers.Sem Model.Unparse Corr.RunC05
-  Proofs.FidelityBase Proofs.ParseTy Proofs.ParseClosed
+  Proofs.GenProofs Proofs.GenTotal Proofs.ClosedProofs Proofs.FidelityBase Proofs.FidelityGen
+  Proofs.ParseTy Proofs.ParseItem Proofs.ParseMod Proofs.ParseClosed
   Proofs.SourceRoundTrip Proofs.SourceSkeleton Proofs.SourceReading.
 Import ListNotations.
 Open Scope string_scope. Open Scope list_scope.
@@ -266,3 +267,404 @@ Section Bridge.
     destruct (fi_boxed f); [|reflexivity]. apply alloc_path_pty. discriminate.
   Qed.
 End Bridge.
+
+(** * 3. the stripped item of [ir_of_source d] is [expected_item d] *)
+Lemma is_compact_src_tpath defs s otp t :
+  is_compact (src_tpath defs s otp true t) = match peel t with SCompactT _ => true | _ => false end.
+Proof. induction t; try reflexivity; cbn [src_tpath peel]; assumption. Qed.
+
+Ltac peel_fin Hc :=
+  cbn [peel] in *; try reflexivity;
+  try (match goal with |- context [peel ?y] => destruct (peel y) end; try reflexivity; discriminate Hc).
+
+Lemma normal_field_compact defs s otp f :
+  field_conv_okb f = true -> fi_compact (normal_field defs s otp f) = field_compact f.
+Proof.
+  intros Hc. unfold normal_field, field_compact. cbn [fi_compact].
+  unfold field_conv_okb in Hc.
+  destruct (sf_compact_attr f) eqn:Ea; [reflexivity|]. cbn [orb].
+  rewrite is_compact_src_tpath.
+  destruct (sf_ty f) as [i|d' xs|x|x|len x|xs|p|x|x|x|a b|a b|x|x|x|st lsb]; peel_fin Hc.
+  destruct x; peel_fin Hc.
+Qed.
+
+Lemma phantom_marker u : phantom_pty (map pos_tpi u) = marker_pty u.
+Proof.
+  destruct u as [|i [|j u]]; [reflexivity|reflexivity|].
+  unfold phantom_pty, marker_pty. cbn [map]. f_equal. unfold abs_p. cbn [removelast last map app].
+  do 5 f_equal. rewrite map_map. reflexivity.
+Qed.
+
+Lemma generics_names l : map tpi_name (map pos_tpi l) = map gname l.
+Proof. rewrite map_map. apply map_ext. reflexivity. Qed.
+
+Lemma strip_fields_app a b : strip_fields (a ++ b) = strip_fields a ++ strip_fields b.
+Proof. unfold strip_fields. apply map_app. Qed.
+
+Definition first_named (fs : list sfield) : bool :=
+  match fs with f :: _ => match sf_name f with Some _ => true | None => false end | [] => false end.
+
+Lemma uniform_named fs : fields_uniformb fs = true -> fs <> [] -> forallb sf_named fs = first_named fs.
+Proof.
+  destruct fs as [|f fs]; [congruence|]. intros H _. unfold fields_uniformb in H. cbn [forallb] in H |- *.
+  change (first_named (f :: fs)) with (sf_named f).
+  destruct (sf_named f); cbn [negb andb orb] in H |- *; [rewrite orb_false_r in H; exact H|reflexivity].
+Qed.
+
+Lemma uniform_unnamed fs :
+  fields_uniformb fs = true -> forallb sf_named fs = false -> forallb (fun f => negb (sf_named f)) fs = true.
+Proof. unfold fields_uniformb. intros H E. rewrite E in H. exact H. Qed.
+
+Section SourceItem.
+  Variable defs : list sdef.
+  Variable s : settings.
+  Variable otp : bool -> tpath.
+  Hypothesis Hrender : render_okb s defs = true.
+  Hypothesis Halloc : alloc_okb (alloc_tokens (s_alloc s)) = true.
+
+  Let asegs := ProgramSkel.alloc_segs s.
+  Let cpt := segs_lead_of (opt_toks (s_compact s)).
+  Let bts := segs_lead_of (opt_toks (s_bits s)).
+  Let ord := fun lsb : bool => tpath_pty asegs (otp lsb).
+  Let nf := normal_field defs s otp.
+  Let exp_field_pty := Program.field_pty defs (s_root s) asegs cpt bts ord.
+  Let exp_fields := expected_fields defs (s_root s) asegs cpt bts ord.
+
+  (** what is needed of one source field: applications name definitions, the conventions of
+      [field_pty], and its normalised path is plain *)
+  Definition fld_ok (f : sfield) : Prop :=
+    apps_okb defs (sf_ty f) = true /\ field_conv_okb f = true /\ tp_plain (fi_path (nf f)) = true.
+
+  Lemma emitted_field_pty f : fld_ok f -> Unparse.field_pty s (nf f) = exp_field_pty f.
+  Proof.
+    intros (Ha & Hc & Hp). rewrite (field_pty_fi_pty defs s Hrender Halloc _ Hp).
+    apply field_reading; assumption.
+  Qed.
+
+  Lemma emitted_field pub codec name f :
+    fld_ok f ->
+    mk_pfield (keep_codec (compact_attrs codec (nf f))) pub name (Unparse.field_pty s (nf f)) =
+    mk_pfield (if field_compact f && codec then [["codec"; "("; "compact"; ")"]] else []) pub name (exp_field_pty f).
+  Proof.
+    intros Hok. rewrite keep_codec_compact, (emitted_field_pty f Hok). unfold compact_attrs, nf.
+    rewrite (normal_field_compact defs s otp f (proj1 (proj2 Hok))). reflexivity.
+  Qed.
+
+  Lemma emitted_fields_named pub codec fs :
+    Forall fld_ok fs -> forallb sf_named fs = true ->
+    strip_fields (map (fun x : string * field_ir =>
+                         mk_pfield (compact_attrs codec (snd x)) pub (Some (fst x)) (Unparse.field_pty s (snd x)))
+                      (map (fun f => (sf_ident f, nf f)) fs)) = exp_fields codec pub fs.
+  Proof.
+    intros Hok Hn. unfold strip_fields, exp_fields, expected_fields. rewrite !map_map.
+    apply map_ext_in. intros f Hf. cbn [pf_attrs pf_pub pf_name pf_ty fst snd].
+    rewrite Forall_forall in Hok. rewrite forallb_forall in Hn. specialize (Hok f Hf). specialize (Hn f Hf).
+    rewrite (emitted_field pub codec (Some (sf_ident f)) f Hok).
+    unfold sf_named in Hn. unfold sf_ident. destruct (sf_name f); [reflexivity|discriminate].
+  Qed.
+
+  Lemma emitted_fields_unnamed pub codec fs :
+    Forall fld_ok fs -> forallb (fun f => negb (sf_named f)) fs = true ->
+    strip_fields (map (fun x : field_ir => mk_pfield (compact_attrs codec x) pub None (Unparse.field_pty s x))
+                      (map nf fs)) = exp_fields codec pub fs.
+  Proof.
+    intros Hok Hn. unfold strip_fields, exp_fields, expected_fields. rewrite !map_map.
+    apply map_ext_in. intros f Hf. cbn [pf_attrs pf_pub pf_name pf_ty].
+    rewrite Forall_forall in Hok. rewrite forallb_forall in Hn. specialize (Hok f Hf). specialize (Hn f Hf).
+    rewrite (emitted_field pub codec None f Hok).
+    unfold sf_named in Hn. destruct (sf_name f); [discriminate|reflexivity].
+  Qed.
+
+  (** variants *)
+  Lemma emitted_variant_body codec fs :
+    Forall fld_ok fs -> fields_uniformb fs = true ->
+    strip_body (variant_body s (src_ckind defs s otp fs) codec) =
+    body_of (first_named fs) (exp_fields codec false fs).
+  Proof.
+    intros Hok Hu. destruct fs as [|f fs']; [reflexivity|].
+    pose proof (uniform_named _ Hu ltac:(discriminate)) as En.
+    unfold src_ckind. destruct (forallb sf_named (f :: fs')) eqn:Ef; rewrite <- En.
+    - cbn [variant_body strip_body]. fold nf. rewrite (emitted_fields_named false codec _ Hok Ef). reflexivity.
+    - cbn [variant_body strip_body]. fold nf.
+      rewrite (emitted_fields_unnamed false codec _ Hok (uniform_unnamed _ Hu Ef)). reflexivity.
+  Qed.
+
+  (** the body [expected_item] gives a struct *)
+  Definition exp_struct_body (codec : bool) (fs : list sfield) (marker : option pty) : pbody :=
+    let named := first_named fs in
+    let pfs := exp_fields codec true fs in
+    let mk := match marker with
+              | Some m => [mk_pfield (if codec && negb (match fs with [] => true | _ => false end)
+                                      then [["codec"; "("; "skip"; ")"]] else [])
+                                     true (if named then Some "__ignore" else None) m]
+              | None => []
+              end in
+    let all := pfs ++ mk in
+    match fs, marker with
+    | [], Some _ => BTuple all
+    | [], None => BUnit
+    | _, _ => if named then BNamed all else BTuple all
+    end.
+
+  Lemma strip_marker codec name u :
+    strip_fields (marker_fields codec name (map pos_tpi u)) =
+    match marker_pty u with Some m => [mk_pfield (skip_attrs codec) true name m] | None => [] end.
+  Proof.
+    unfold marker_fields. rewrite phantom_marker. destruct (marker_pty u); [|reflexivity].
+    unfold strip_fields. cbn [map pf_attrs pf_pub pf_name pf_ty]. rewrite keep_codec_skip. reflexivity.
+  Qed.
+
+  Lemma emitted_struct_body codec fs u :
+    Forall fld_ok fs -> fields_uniformb fs = true ->
+    strip_body (struct_body s (src_ckind defs s otp fs) (map pos_tpi u) codec) =
+      exp_struct_body codec fs (marker_pty u) /\
+    match src_ckind defs s otp fs with CNamed _ => false | _ => true end =
+      match exp_struct_body codec fs (marker_pty u) with BNamed _ => false | _ => true end.
+  Proof.
+    intros Hok Hu. destruct fs as [|f fs'].
+    - cbn [src_ckind struct_body]. rewrite phantom_marker. unfold exp_struct_body.
+      destruct (marker_pty u); destruct codec; split; reflexivity.
+    - pose proof (uniform_named _ Hu ltac:(discriminate)) as En.
+      unfold src_ckind. destruct (forallb sf_named (f :: fs')) eqn:Ef.
+      + cbn [struct_body strip_body]. fold nf. rewrite strip_fields_app, strip_marker.
+        rewrite (emitted_fields_named true codec _ Hok Ef).
+        unfold exp_struct_body. rewrite <- En. destruct (marker_pty u); destruct codec; split; reflexivity.
+      + cbn [struct_body strip_body]. fold nf. rewrite strip_fields_app, strip_marker.
+        rewrite (emitted_fields_unnamed true codec _ Hok (uniform_unnamed _ Hu Ef)).
+        unfold exp_struct_body. rewrite <- En. destruct (marker_pty u); destruct codec; split; reflexivity.
+  Qed.
+End SourceItem.
+
+(** the emitted item of the skeleton of a source definition, stripped, is the expected item *)
+Theorem source_item_expected defs s otp sd :
+  render_okb s defs = true ->
+  ir_plain s (ir_of_source defs s otp sd) = true ->
+  names_uniformb sd = true ->
+  forallb (fun f => apps_okb defs (sf_ty f) && field_conv_okb f) (def_sfields sd) = true ->
+  strip_item (item_of_ir s (ir_of_source defs s otp sd)) = expected_of_source defs s otp sd.
+Proof.
+  intros Hr Hp Hu Hf.
+  destruct (ir_plain_fields _ _ Hp) as (Halloc & Hplain).
+  destruct (ir_of_source_spec defs s otp sd) as (_ & _ & Ekf). rewrite Ekf in Hplain.
+  assert (Hok : Forall (fld_ok defs s otp) (def_sfields sd)).
+  { apply Forall_forall. intros f Hin. rewrite forallb_forall in Hf.
+    destruct (andb_prop _ _ (Hf f Hin)) as [Ha Hc].
+    split; [exact Ha|split; [exact Hc|]]. apply (Hplain (normal_field defs s otp f)). apply in_map. exact Hin. }
+  clear Hplain Ekf Hf Hp.
+  unfold expected_of_source, expected_item, names_uniformb, def_sfields in *.
+  destruct (sd_body sd) as [fs|vs] eqn:Eb.
+  - rewrite (strip_item_struct s _ (mk_ci (last (sd_path sd) "") (src_ckind defs s otp fs) []))
+      by (unfold ir_of_source; rewrite Eb; reflexivity).
+    cbn [ci_name ci_kind].
+    change (ti_params (ir_of_source defs s otp sd)) with (map pos_tpi (generics_of sd)).
+    change (ti_unused (ir_of_source defs s otp sd)) with (map pos_tpi (unused_generics defs sd)).
+    change (ti_codec (ir_of_source defs s otp sd)) with (s_codec s).
+    rewrite generics_names.
+    destruct (emitted_struct_body defs s otp Hr Halloc (s_codec s) fs (unused_generics defs sd) Hok Hu) as [E1 E2].
+    rewrite E1, E2. unfold unused_generics. rewrite Eb. reflexivity.
+  - rewrite (strip_item_enum s _ (last (sd_path sd) "") []
+               (map (fun v : string * N * list sfield =>
+                       (snd (fst v), mk_ci (fst (fst v)) (src_ckind defs s otp (snd v)) [])) vs))
+      by (unfold ir_of_source; rewrite Eb; reflexivity).
+    change (ti_params (ir_of_source defs s otp sd)) with (map pos_tpi (generics_of sd)).
+    change (ti_unused (ir_of_source defs s otp sd)) with (map pos_tpi (unused_generics defs sd)).
+    change (ti_codec (ir_of_source defs s otp sd)) with (s_codec s).
+    rewrite generics_names. unfold ignore_variants. rewrite phantom_marker.
+    unfold unused_generics. rewrite Eb. cbv zeta. f_equal. f_equal.
+    + rewrite map_map. apply map_ext_in. intros [[vn vi] vfs] Hv. cbn [fst snd ci_name ci_kind].
+      rewrite (emitted_variant_body defs s otp Hr Halloc).
+      * reflexivity.
+      * rewrite Forall_forall in Hok. apply Forall_forall. intros f Hin. apply Hok.
+        apply in_flat_map. exists (vn, vi, vfs). split; [exact Hv|exact Hin].
+      * rewrite forallb_forall in Hu. apply (Hu _ Hv).
+    + destruct (marker_pty _); reflexivity.
+Qed.
+
+(** * 4. compositions *)
+
+(** C05_expected_item_of_ir: from the erased IR to the parse tree *)
+Theorem expected_item_of_ir defs s otp sd ir :
+  render_okb s defs = true ->
+  names_uniformb sd = true ->
+  forallb (fun f => apps_okb defs (sf_ty f) && field_conv_okb f) (def_sfields sd) = true ->
+  ir_plain s ir = true ->
+  erase_ids ir = ir_of_source defs s otp sd ->
+  strip_item (item_of_ir s ir) = expected_of_source defs s otp sd.
+Proof.
+  intros Hr Hu Hf Hp He. rewrite <- strip_item_erase, He.
+  apply source_item_expected; try assumption. rewrite <- He. apply ir_plain_erase. exact Hp.
+Qed.
+
+(** successful IR construction: the fields of a struct / of every variant are all named or all
+    unnamed (mixed fields are [EInvalidFields]) *)
+Lemma names_fields defs L pnames args fs fl :
+  Forall2 (field_of defs L pnames args) fs fl ->
+  all_named fl = forallb sf_named fs /\ all_unnamed fl = forallb (fun f => negb (sf_named f)) fs.
+Proof.
+  induction 1 as [|sf f fs fl (Hn & _) _ (IH1 & IH2)]; [split; reflexivity|].
+  unfold all_named, all_unnamed in *. cbn [forallb]. rewrite IH1, IH2, Hn. unfold sf_named.
+  split; destruct (sf_name sf); reflexivity.
+Qed.
+
+Lemma cck_uniform defs L pnames args r s fs fl P u k u' :
+  Forall2 (field_of defs L pnames args) fs fl ->
+  create_composite_ir_kind r s fl P u = Ok (k, u') -> fields_uniformb fs = true.
+Proof.
+  intros H2 Hc. destruct (names_fields _ _ _ _ _ _ H2) as [E1 E2].
+  unfold create_composite_ir_kind in Hc. destruct fl as [|f0 fl0].
+  { inversion H2; subst. reflexivity. }
+  destruct (negb (all_named (f0 :: fl0) || all_unnamed (f0 :: fl0))) eqn:E; [discriminate|].
+  apply negb_false_iff in E. unfold fields_uniformb. rewrite <- E1, <- E2. exact E.
+Qed.
+
+Lemma variants_uniform defs L pnames args r s P : forall vs vl,
+  Forall2 (fun (v : string * N * list sfield) (vr : variant) =>
+             v_name vr = fst (fst v) /\ v_index vr = snd (fst v) /\
+             Forall2 (field_of defs L pnames args) (snd v) (v_fields vr)) vs vl ->
+  forall u l u', variants_ir r s P vl u = Ok (l, u') ->
+  forallb (fun v : string * N * list sfield => fields_uniformb (snd v)) vs = true.
+Proof.
+  induction 1 as [|v vr vs vl (_ & _ & Hf) _ IH]; intros u l u' H; [reflexivity|].
+  rewrite variants_ir_cons in H. apply bind_ok in H as (vn & _ & H).
+  apply bind_ok in H as ([k u1] & Hk & H). apply bind_ok in H as ([l' u2] & Hrest & H).
+  cbn [fst snd] in Hk, Hrest. cbn [forallb].
+  rewrite (cck_uniform _ _ _ _ _ _ _ _ _ _ _ _ Hf Hk), (IH _ _ _ Hrest). reflexivity.
+Qed.
+
+Lemma names_uniform_of_ir defs L r s d sd args t flat ir :
+  nth_error defs d = Some sd -> entry_of defs L r (SApp d args) t ->
+  create_type_ir r s t flat = Ok (Some ir) -> names_uniformb sd = true.
+Proof.
+  intros Hsd Hent Hc.
+  destruct (ent_inv defs L r d sd args Hsd t Hent) as (_ & _ & _ & Hbody).
+  destruct (SourceSkeleton.create_type_ir_inv _ _ _ _ _ Hc) as (_ & _ & nm & _ & Hk).
+  unfold names_uniformb. destruct (sd_body sd) as [fs|vs].
+  - destruct Hbody as (fl & Hd & Hfl).
+    destruct Hk as [(fs' & k & u & Hd' & Hcc & _)|(vs' & l & u & Hd' & _)]; [|congruence].
+    rewrite Hd in Hd'. inversion Hd'; subst fs'. eapply cck_uniform; eauto.
+  - destruct Hbody as (vl & Hd & Hvl).
+    destruct Hk as [(fs' & k & u & Hd' & _)|(vs' & l & u & Hd' & Hcc & _)]; [congruence|].
+    rewrite Hd in Hd'. inversion Hd'; subst vs'. eapply variants_uniform; eauto.
+Qed.
+
+(** the entry of an instantiation of an ok definition is turned into an item *)
+Lemma def_entry_eligible defs L r s d sd args t :
+  nth_error defs d = Some sd -> def_okb s sd = true -> entry_of defs L r (SApp d args) t ->
+  item_eligible s t = true.
+Proof.
+  intros Hsd Hok Hent.
+  destruct (ent_inv defs L r d sd args Hsd t Hent) as (Hp & _ & _ & Hbody).
+  assert (Hcv : is_composite_or_variant (t_def t) = true).
+  { destruct (sd_body sd); destruct Hbody as (x & -> & _); reflexivity. }
+  unfold item_eligible. rewrite Hcv, Hp. unfold def_okb in Hok.
+  apply andb_prop in Hok as [Hok _]. apply andb_prop in Hok as [Hok _]. apply andb_prop in Hok as [Hsub Hns].
+  destruct (sd_path sd) as [|a [|b l]]; try discriminate Hns.
+  unfold subs_contains. destruct (subs_get (s_subs s) (a :: b :: l)); [discriminate|]. reflexivity.
+Qed.
+
+Section RoundTrip.
+  Variable defs : list sdef.
+  Variable L : N -> option src.
+  Variable r : registry.
+  Variable s : settings.
+  Variable otp : bool -> tpath.
+  Hypothesis HR : RegistryOf defs L r.
+  Hypothesis Hdefs : forall sd, In sd defs -> def_okb s sd = true.
+  Hypothesis Hprel : prelude_okb s = true.
+  Hypothesis Hord : order_resolves s otp.
+  Hypothesis Hrender : render_okb s defs = true.
+  Hypothesis Hpaths : forall d1 d2 sd1 sd2,
+    nth_error defs d1 = Some sd1 -> nth_error defs d2 = Some sd2 -> sd_path sd1 = sd_path sd2 -> d1 = d2.
+
+  Variable d : nat.
+  Variable sd : sdef.
+  Hypothesis Hsd : nth_error defs d = Some sd.
+  Hypothesis Hfrag : forallb (fun f => no_cow_cow (sf_ty f)) (def_sfields sd) = true.
+  Hypothesis Hbox : box_names_okb defs sd = true.
+  Hypothesis Hconv : forallb (fun f => apps_okb defs (sf_ty f) && field_conv_okb f) (def_sfields sd) = true.
+  Hypothesis Hnomarker : forall lsb, sd_path sd <> order_path_of lsb.
+  (** every interned instantiation of the definition is coincidence-free ([cf_def] of Corr/RunC05.v) *)
+  Hypothesis Hinst : forall id args, L id = Some (SApp d args) ->
+    instantiation_cf defs sd args = true /\ map canon args = args /\ compact_fields_okb defs sd args = true.
+
+  Variable teq : N -> N -> result bool.
+  Variable m : items.
+  Hypothesis Hgen : generate r s teq = Ok m.
+
+  (** the item kept at the definition's path is the IR of one of its instantiations *)
+  Lemma item_at_def_path id args :
+    L id = Some (SApp d args) ->
+    exists id0 ir k args0 t0 flat,
+      items_get m (sd_path sd) = Some (id0, ir) /\ L k = Some (SApp d args0) /\
+      entry_of defs L r (SApp d args0) t0 /\ create_type_ir r s t0 flat = Ok (Some ir).
+  Proof.
+    intros Hl. destruct HR as (H1 & H2 & H3).
+    destruct (H1 _ _ Hl) as (t & Hres & Hent).
+    pose proof (FidelityGen.resolve_In r id t (generate_sanity _ _ _ _ Hgen) Hres) as Hin.
+    pose proof (def_entry_eligible defs L r s d sd args t Hsd (Hdefs sd (nth_error_In _ _ Hsd)) Hent) as Hel.
+    destruct (generate_lookup r s teq m Hgen id t Hin Hel) as (id0 & X0 & ir0 & flat & Hfirst & _ & Hir0 & Hget).
+    destruct (first_eligible_some _ _ _ _ _ Hfirst) as (Hin0 & Hp0 & Hel0).
+    destruct (ent_inv defs L r d sd args Hsd t Hent) as (Hp & _).
+    rewrite Hp in Hget, Hp0.
+    destruct (eligible_cases defs L r s HR id0 X0 Hin0 Hel0)
+      as [(k & d' & args' & sd' & Hl' & Hsd' & He' & Hp')|(lsb & Hm)].
+    - assert (d' = d) by (apply (Hpaths d' d sd' sd Hsd' Hsd); congruence). subst d'.
+      assert (sd' = sd) by congruence. subst sd'.
+      exists id0, ir0, k, args', X0, flat. auto.
+    - exfalso. destruct Hm as (Hpm & _). apply (Hnomarker lsb). unfold order_path_of. congruence.
+  Qed.
+
+  (** C05_source_roundtrip, one item: the tokens emitted for the item kept at the definition's path
+      parse to an item whose stripped form is the expected item of the SOURCE definition *)
+  Theorem source_roundtrip_item id args :
+    L id = Some (SApp d args) ->
+    exists id0 ir,
+      items_get m (sd_path sd) = Some (id0, ir) /\
+      (ir_plain s ir = true -> strip_item (item_of_ir s ir) = expected_of_source defs s otp sd) /\
+      forall toks, type_ir_tokens s ir = Ok toks -> ir_plain s ir = true ->
+        exists it, parse_one_item toks = Some it /\ strip_item it = expected_of_source defs s otp sd.
+  Proof.
+    intros Hl.
+    destruct (item_at_def_path id args Hl) as (id0 & ir & k & args0 & t0 & flat & Hget & Hl0 & He0 & Hc0).
+    destruct (Hinst k args0 Hl0) as (Hcf & Hcan & Hco).
+    pose proof (skeleton_full defs L r s otp HR Hdefs Hprel Hord d sd args0 Hsd Hcf Hcan Hfrag Hco Hbox
+                  t0 He0 flat ir Hc0) as Hsk.
+    pose proof (names_uniform_of_ir defs L r s d sd args0 t0 flat ir Hsd He0 Hc0) as Hu.
+    assert (Hexp : ir_plain s ir = true -> strip_item (item_of_ir s ir) = expected_of_source defs s otp sd).
+    { intros Hp. apply expected_item_of_ir; assumption. }
+    exists id0, ir. split; [exact Hget|]. split; [exact Hexp|].
+    intros toks Ht Hp. destruct (syn_forms s ir toks Ht Hp) as (it & Hpi & -> & _).
+    exists (item_of_ir s ir). split; [exact Hpi|exact (Hexp Hp)].
+  Qed.
+
+  (** the reader's [lookup_item] on the parse tree of the emitted module finds the item of a key *)
+  Lemma lookup_generated p id ir :
+    items_get m p = Some (id, ir) -> lookup_item (pmod_of_items s m) p = Some (item_of_ir s ir).
+  Proof.
+    intros H. destruct (generate_unique_names _ _ _ _ Hgen) as [Hsorted Hnd].
+    pose proof (items_get_In_some _ _ _ H) as Hin. unfold pmod_of_items.
+    apply (lookup_pmod s (S (max_depth m)) (s_root s) (es0 m) p (p, (p, ir))).
+    - pose proof (max_depth_ge m _ Hin) as Hl. cbn [fst] in Hl. lia.
+    - rewrite es0_fst. exact Hnd.
+    - intros e He. destruct (es0_in m e He) as (q & id' & ir' & Hin' & ->).
+      assert (Hget' : items_get m q = Some (id', ir')) by (apply (items_get_In_iff m Hsorted); exact Hin').
+      destruct (generate_items_come_from_entries _ _ _ _ _ _ _ Hgen Hget') as (t & fl & _ & Hpath & _ & _ & Hc).
+      destruct (create_type_ir_name_params _ _ _ _ _ Hc) as (Hne & Hlast & _). rewrite Hpath in *.
+      split; assumption.
+    - unfold es0. apply in_map_iff. exists (p, (id, ir)). split; [reflexivity|exact Hin].
+    - reflexivity.
+  Qed.
+
+  (** C05_source_roundtrip, whole module: exactly the computation of [prop_source_roundtrip] *)
+  Theorem source_roundtrip_module id args toks :
+    L id = Some (SApp d args) -> emit_module s m = Ok toks -> items_plain s m = true ->
+    exists pm it, parse_module toks = Some pm /\ lookup_item pm (sd_path sd) = Some it /\
+                  strip_item it = expected_of_source defs s otp sd.
+  Proof.
+    intros Hl He Hp. destruct (source_roundtrip_item id args Hl) as (id0 & ir & Hget & Hexp & _).
+    exists (pmod_of_items s m), (item_of_ir s ir). split; [apply emit_parses; assumption|].
+    split; [apply (lookup_generated _ _ _ Hget)|]. apply Hexp.
+    unfold items_plain in Hp. rewrite forallb_forall in Hp.
+    apply (Hp (sd_path sd, (id0, ir))). apply items_get_In_some. exact Hget.
+  Qed.
+End RoundTrip.
